@@ -65,7 +65,7 @@ CLAIMED = {
   note="The induction over the history is an argument (DESIGN.md 9.3) over discharged per-operation obligations. Bounded stand-ins as in C06/C02 (one inner payload)."),
  "C18": dict(cat="other", ref="DESIGN.md 4 (C18), 9.5",
   tech="frame (assigns) obligations decided by a data-flow analysis over go/ssa: no write to package-level state outside initialisers, interprocedural write-through-parameter and returns-shared summaries",
-  text="What contract-based verification can express of this property is its stated reason: the library keeps no mutable state outside the objects passed in. A frame analysis over the SSA of every non-test library function (one obligation per function) proves that outside package initialisers nothing derived from a package-level variable is stored to, appended to, copied into, map-updated, passed to a repository function that writes through that parameter, or passed to an external function not on a short read-only list; and that library code uses no goroutines, channels, sync, atomic or unsafe. With the per-operation frame results of C20 / C17 / C19 (decoders own their output, encoders return fresh buffers, SA operations touch only the SA passed in) operations on disjoint arguments write disjoint memory, hence cannot race (Go memory model) and return what they return alone.",
+  text="What contract-based verification can express of this property is its stated reason: the library keeps no mutable state outside the objects passed in. A frame analysis over the SSA of every non-test library function (one obligation per function) proves that outside package initialisers nothing derived from a package-level variable is stored to, appended to, copied into, map-updated, passed to a repository function that writes through that parameter, or passed to an external function not on a short read-only list; that no function writes through a []byte parameter, not even into its spare capacity (except the padding helpers documented to extend the plaintext buffer they are given), so input buffers may be shared read-only; and that library code uses no goroutines, channels, sync, atomic or unsafe. With the per-operation frame results of C20 / C17 / C19 (decoders own their output, encoders return fresh buffers, SA operations touch only the SA passed in) operations on disjoint arguments write disjoint memory, hence cannot race (Go memory model) and return what they return alone.",
   note="NOT decided: the schedule quantifier itself - no interleaving is executed and the race detector's observations are not reproduced; thread-safety of crypto/rand.Reader and of math/big read-only operations is assumed."),
  "C19": dict(cat="proof", ref="DESIGN.md 4 (C19)",
   text="Every builder and constructor is loop-free; its lemma function proves for all arguments and any prior container content that exactly one element is appended, earlier elements are untouched, the new element's dynamic type and fields equal the arguments (byte strings by content, in fresh storage), NewHeader sets version 2.0 and exactly the 0x20/0x08 flag bits which IsResponse/IsInitiator report back, and the 3GPP helpers emit the TS 24.502 layouts written into the lemmas, with errors (not truncation) for oversize arguments.",
